@@ -113,6 +113,15 @@ def gen_family(rng):
             cands = [j for j in range(k) if j > i or kinds[i] == "attrs" or (kinds[i] == "dataclass" and rng.random() < 0.3)]
             if cands:
                 fields.append(["extra", (rng.choice(WRAPS), ("ref", rng.choice(cands))), True, False])
+        spell, notreq = {}, set()
+        if kinds[i] != "nt" and rng.random() < 0.35:
+            # a reference to the class itself, spelled typing.Self (inside a generic alias, which is where it has to be substituted);
+            # Self is resolved by the GENERATED hooks of attrs classes, dataclasses and TypedDicts (docs: Converter only), so families
+            # that use it are not run through BaseConverter or the tuple strategy (see Family.interp_ok)
+            w = rng.choice(WRAPS)
+            st = (w, ("ref", i)) if w != "opt" else ("opt", ("ref", i), rng.randrange(2))
+            fields.append(["me", st, True, False])
+            spell["me"] = ann(st).replace(f"G{i}", "Self")
         rng.shuffle(fields)
         # attrs field converters on reference-carrying attributes (identity on structured values)
         for f in fields:
@@ -123,13 +132,17 @@ def gen_family(rng):
         else:
             for f in fields:
                 f[2] = False
-        classes.append({"kind": kinds[i], "fields": [tuple(f) for f in fields]})
+                # NotRequired keys (only where the annotation is not a quoted forward reference)
+                if not any(j <= i for j in refs(f[1])) or f[0] in spell:
+                    if rng.random() < (0.6 if f[0] == "me" else 0.25):
+                        notreq.add(f[0])
+        classes.append({"kind": kinds[i], "fields": [tuple(f) for f in fields], "spell": spell, "notreq": notreq})
     return classes
 
 
 def source(classes):
     out = ["import enum, dataclasses, attrs",
-           "from typing import Any, Dict, List, NamedTuple, Optional, Tuple, TypedDict, Union",
+           "from typing import Any, Dict, List, NamedTuple, NotRequired, Optional, Self, Tuple, TypedDict, Union",
            "class E(enum.Enum):\n    A = 'a'\n    B = 'b'",
            "def ident(v):\n    return v"]
     k = len(classes)
@@ -140,6 +153,10 @@ def source(classes):
             a = ann(t)
             fwd = any(j <= i for j in refs(t))            # refers to a class not defined yet (or to itself)
             a_s = repr(a) if fwd else a
+            if name in c.get("spell", {}):
+                a_s = c["spell"][name]
+            if name in c.get("notreq", ()):
+                a_s = f"NotRequired[{a_s}]"
             if c["kind"] == "attrs":
                 args = []
                 if dflt:
@@ -187,7 +204,8 @@ class Family:
         # (resolved above the way user code would, with attrs.resolve_types)
         self.fwd_dataclass = any(c["kind"] == "dataclass" and any(any(j <= i for j in refs(f[1])) for f in c["fields"])
                                  for i, c in enumerate(self.classes))
-        self.interp_ok = self.only_classes and not self.fwd_dataclass
+        self.has_self = any(c.get("spell") for c in self.classes)
+        self.interp_ok = self.only_classes and not self.fwd_dataclass and not self.has_self
 
     def close(self):
         sys.modules.pop(self.modname, None)
@@ -240,6 +258,9 @@ class Family:
         c = self.classes[i]
         vals = {name: self.value(rng, t, depth) for name, t, _d, _c in c["fields"]}
         if c["kind"] == "td":
+            for name in c.get("notreq", ()):
+                if rng.random() < 0.35:
+                    del vals[name]
             return vals
         if c["kind"] == "nt":
             return self.cls[i](*[vals[f[0]] for f in c["fields"]])
@@ -260,7 +281,7 @@ class Family:
             return {kk: self.encode(t[1], e, strat) for kk, e in x.items()}
         c = self.classes[t[1]]
         if c["kind"] == "td":
-            return {name: self.encode(ft, x[name], strat) for name, ft, _d, _c in c["fields"]}
+            return {name: self.encode(ft, x[name], strat) for name, ft, _d, _c in c["fields"] if name in x}
         items = [(name, self.encode(ft, getattr(x, name), strat)) for name, ft, _d, _c in c["fields"]]
         if c["kind"] == "nt" or strat == "tuple":
             return tuple(e for _, e in items)
@@ -285,7 +306,8 @@ class Family:
             return type(v) is dict and all(type(kk) is str and self.conforms(t[1], e) for kk, e in v.items())
         c = self.classes[t[1]]
         if c["kind"] == "td":
-            return type(v) is dict and all(name in v and self.conforms(ft, v[name]) for name, ft, _d, _c in c["fields"])
+            return type(v) is dict and all((name in v and self.conforms(ft, v[name])) or (name not in v and name in c.get("notreq", ()))
+                                           for name, ft, _d, _c in c["fields"])
         if type(v) is not self.cls[t[1]]:
             return False
         return all(self.conforms(ft, getattr(v, name)) for name, ft, _d, _c in c["fields"])
@@ -423,13 +445,15 @@ def run(f, *a):
 def cycle_battery(v: Verdict, prop: str, n_families: int):
     from cattrs import BaseConverter, Converter, UnstructureStrategy
     rng = random.Random(v.seed * 104729 + sum(map(ord, prop)) + 17)
-    hist = {"families": 0, "kinds": {}, "wraps": {}, "with_field_converter": 0, "classes_only": 0, "values": 0, "roundtrips": 0,
+    hist = {"families": 0, "kinds": {}, "wraps": {}, "with_field_converter": 0, "with_typing_self": 0, "notrequired_keys": 0, "classes_only": 0, "values": 0, "roundtrips": 0,
             "structure_mutated": 0, "mode_pairs": 0, "class_pairs": 0, "tuple_strategy": 0, "skipped_recursion": 0}
     for fi in range(n_families):
         fam = Family(rng)
         hist["families"] += 1
         hist["classes_only"] += fam.interp_ok
         hist["with_field_converter"] += fam.has_conv
+        hist["with_typing_self"] += fam.has_self
+        hist["notrequired_keys"] += sum(len(c.get("notreq", ())) for c in fam.classes)
         for c in fam.classes:
             hist["kinds"][c["kind"]] = hist["kinds"].get(c["kind"], 0) + 1
             for f in c["fields"]:
